@@ -31,7 +31,7 @@ ANCHORS = [
     "raggedshape.py::ViewBase.ravel_multi_index", "raggedshape.py::ViewBase.unravel_multi_index", "raggedshape.py::ViewBase.index_array",
     "raggedshape.py::RaggedShape.size",
 ]
-CTORS = ["rows", "tuplerows", "pyrows", "mixedrows", "flat", "flat_nplens", "flatlist", "shape_tuple", "raggedshape", "flat_strided", "matrix"]
+CTORS = ["rows", "tuplerows", "matrix2d_dtype", "pyrows", "mixedrows", "flat", "flat_nplens", "flatlist", "shape_tuple", "raggedshape", "flat_strided", "matrix"]
 FLOOR_TAGS = ["ctor:" + c for c in CTORS] + ["kind:b", "kind:i", "kind:u", "kind:f", "v:small", "v:extreme", "v:nonfinite",
                                              "reject", "saveload", "matrix-roundtrip", "order:F", "order:T", "order:strided", "norows", "allempty", "e-first", "e-last", "e-mid", "e-consec", "e-none", "big-repr", "lensdtype:narrow", "lensdtype:sum-overflows"]
 FLOOR_MONITORS = ["c01:readback", "c01:geometry", "c01:reject", "c01:result-independent", "inv:ragged"]
@@ -59,6 +59,15 @@ def build(case, flat, rows):
     RA = CTX.lib.RaggedArray
     lens, ctor, dt = case["lens"], case["ctor"], np.dtype(case["dtype"])
     if ctor == "rows":
+        return RA([r.copy() for r in rows], dtype=dt), True
+    if ctor == "matrix2d_dtype":
+        # the rows as ONE 2-d numpy array of another element type plus dtype= (rectangular contents; otherwise as a list of rows)
+        if len(lens) and len(set(lens)) == 1 and lens[0] > 0:
+            src = np.array([r.tolist() for r in rows], dtype=np.float64 if dt != np.float64 else np.longdouble)      # a wider type that holds every value exactly
+            with np.errstate(all="ignore"):
+                exact = np.array_equal(src.astype(dt), np.array([r.tolist() for r in rows], dtype=dt), equal_nan=(dt.kind == "f"))
+            if exact:
+                return RA(src, dtype=dt), True
         return RA([r.copy() for r in rows], dtype=dt), True
     if ctor == "tuplerows":        # the rows in a tuple instead of a list
         return RA(tuple(r.copy() for r in rows), dtype=dt), True
@@ -241,6 +250,23 @@ def check_geometry(lens, ra, tags, lens_as=None):
             r = G(what, f, exp)
             if r:
                 return r
+        # 'ends' is computed on request (starts + lengths): the array handed out belongs to the caller, who may change it
+        # (e.g. last = shape.ends; last -= 1) without changing what the geometry object reports or computes afterwards
+        if n and name.startswith("RaggedShape"):
+            e_ = attempt(lambda: shape.ends)
+            if e_.ok and isinstance(e_.value, np.ndarray) and e_.value.flags.writeable:
+                e_.value -= 1
+                r = G("ends (after the caller changed the array returned before)", lambda: np.asarray(shape.ends).tolist(), ends)
+                if r:
+                    return r
+                o_ = attempt(lambda: CTX.lib.RaggedArray(np.arange(tot), shape))
+                if o_.ok:
+                    for what_, f_, exp_ in (("tolist", lambda: o_.value.tolist(), [list(range(s_, e2)) for s_, e2 in zip(starts, ends)]),
+                                            ("cumsum", lambda: np.cumsum(o_.value, axis=-1).tolist(), [np.cumsum(np.arange(s_, e2)).tolist() for s_, e2 in zip(starts, ends)]),
+                                            ("row sums", lambda: o_.value.sum(axis=-1).tolist(), [sum(range(s_, e2)) for s_, e2 in zip(starts, ends)])):
+                        r = G("array over that shape: " + what_, f_, exp_)
+                        if r:
+                            return r
         if tot > 0:
             rr = np.array([c[0] for c in cells])
             cc = np.array([c[1] for c in cells])
@@ -354,7 +380,7 @@ def matrix_case(r, c, dtype, vals, vclass="small", order="C"):
 def directed():
     import random
     rng = random.Random(101)
-    shapes = [[], [0], [3], [0, 0, 0], [0, 2, 3], [2, 3, 0], [2, 0, 3], [1, 0, 0, 4], [0, 0, 1, 0, 0], [2, 2, 2], [1, 1], [0, 12, 1], [5, 4, 3, 2, 1]]
+    shapes = [[], [0], [3], [0, 0, 0], [0, 2, 3], [2, 3, 0], [2, 0, 3], [1, 0, 0, 4], [0, 0, 1, 0, 0], [2, 2, 2], [1, 1], [0, 12, 1], [5, 4, 3, 2, 1], [3, 3], [4, 4, 4]]
     for lens in shapes:
         for i, ctor in enumerate(CTORS[:-1]):
             for dtype in (["int64", "bool", "uint8", "float32"] if ctor in ("flat", "rows") else [gen.DT_ALL[(i * 3 + len(lens)) % len(gen.DT_ALL)]]):
